@@ -820,16 +820,23 @@ class Builder:
                     elif lpat is not None and lpat.get("k") == "tuple" and el.get("k") == "tuple" and len(lpat["subs"]) == len(el.get("es") or []):
                         pairs = list(zip(lpat["subs"], el["es"]))
                     for p_, v_ in pairs:
+                        cv_ = self.variant_of(v_)
                         v_ = H.peel_ref(v_)
                         if p_.get("k") == "bind" and p_.get("name") not in self.assigned:
                             if v_.get("k") == "lit" and v_["lit"]["t"] == "str":
                                 self.bind[p_["name"]] = v_["lit"]["v"]
                             else:
                                 self.bind.pop(p_["name"], None)
+                            if cv_ is not None:
+                                if "__cvar_saved" not in saved_b:
+                                    saved_b["__cvar_saved"] = dict(self.cvar)
+                                self.cvar[p_["name"]] = cv_          # `for (flag, spec) in [(a, Spec::X), (b, Spec::Y)]`
                     self.loop_ends.append(nxt)
                     self.build(S[1], cur, nxt, fn_end, fname)
                     self.loop_ends.pop()
                     cur = nxt
+                if "__cvar_saved" in saved_b:
+                    self.cvar = saved_b.pop("__cvar_saved")
                 for k_ in list(self.bind):
                     if k_ != idx and k_ not in saved_b:
                         del self.bind[k_]
